@@ -27,9 +27,9 @@ ASSUMPTIONS = [
 
 def shards(tier, seed):
     q = tier == "quick"
-    out = std_shards("C08", tier, seed, 50, 1200, nshards=9, extra={"macro_share": 0.3})
+    out = std_shards("C08", tier, seed, 110, 1200, nshards=9, extra={"macro_share": 0.3})
     for s in shard_seeds(seed, 6, "C08m"):
-        out.append({"kind": "macro", "seed": s, "n": 28 if q else 700})
+        out.append({"kind": "macro", "seed": s, "n": 45 if q else 700})
     return out
 
 
